@@ -23,7 +23,7 @@ ASSUMPTIONS = [
     "reference model hv/ref/raw.py and Python's json module are trusted",
 ]
 PLAN = {
-    "quick": {"shards": 16, "cases": 640, "timeout": 600},
+    "quick": {"shards": 16, "cases": 1280, "timeout": 600},
     "thorough": {"shards": 16, "cases": 16000, "timeout": 3000},
 }
 FLOORS = {
